@@ -182,6 +182,25 @@ func runC14(r *ev.Run) {
 			}
 			trainBuffers = tr
 		}
+		// a REFUSED Train on an already trained index (too few vectors) leaves it exactly as it was
+		if minTrain > 1 && rng.IntN(3) == 0 {
+			d1, ok := trainedStateDigest(s.idx)
+			few := minTrain - 1
+			if kind == "ivfpq" && ksub-1 >= nlist*10 && rng.IntN(2) == 0 {
+				few = ksub - 1 // enough for the coarse quantiser, too few for the codebooks
+			}
+			if err := s.idx.Train(mkTrain(few)); err != nil && ok {
+				if d2, _ := trainedStateDigest(s.idx); d2 != d1 {
+					rep(kind+".refused-train-changes-state", fmt.Sprintf("Train with %d vectors was refused (%v) but the centroids / codebooks changed", few, err))
+					return
+				}
+				if !s.idx.Trained() {
+					rep(kind+".refused-train-changes-state", "a refused Train left the index untrained")
+					return
+				}
+				r.Count("ops:refused-train-on-a-trained-index", 1)
+			}
+		}
 		// the caller reuses its training buffers: right after Train in half of the cases, otherwise in the middle of the
 		// history, when vectors are already stored (an index whose centroids / codebooks still point into the training
 		// data then decodes stored codes against moved centroids)
